@@ -63,6 +63,12 @@ pub struct World {
     pub roots: [RootModel; 2],
     /// process wide grid cache: name -> version held
     pub cache: BTreeMap<String, u32>,
+    /// versions of each grid that some operator of this run has loaded (and, operators
+    /// being kept alive, may still be shared by a cache that holds weak references)
+    pub ever_loaded: BTreeMap<String, std::collections::BTreeSet<u32>>,
+    /// when set for a name: the version a lookup of that name delivers, whatever cache
+    /// and disk say (used to explore which of the admissible versions a lookup took)
+    pub choice: BTreeMap<String, u32>,
 }
 
 pub const BUILTIN_ADAPTORS: [&str; 8] = ["geo:in", "geo:out", "gis:in", "gis:out", "neu:in", "neu:out", "enu:in", "enu:out"];
@@ -118,16 +124,26 @@ impl World {
         if !self.ctxs[c].plain {
             return None;
         }
-        if let Some(v) = self.cache.get(name) {
-            return Some(*v);
+        if let Some(v) = self.choice.get(name).copied() {
+            self.cache.insert(name.to_string(), v);
+            self.ever_loaded.entry(name.to_string()).or_default().insert(v);
+            return Some(v);
         }
-        for root in &self.roots {
-            if let Some(v) = root.grids.get(name) {
-                self.cache.insert(name.to_string(), *v);
-                return Some(*v);
-            }
+        if let Some(v) = self.cache.get(name).copied() {
+            self.ever_loaded.entry(name.to_string()).or_default().insert(v);
+            return Some(v);
+        }
+        if let Some(v) = self.disk_version(name) {
+            self.cache.insert(name.to_string(), v);
+            self.ever_loaded.entry(name.to_string()).or_default().insert(v);
+            return Some(v);
         }
         None
+    }
+
+    /// The version of a grid file a lookup would read from disk now
+    pub fn disk_version(&self, name: &str) -> Option<u32> {
+        self.roots.iter().find_map(|r| r.grids.get(name).copied())
     }
 
     /// Number of entries the step list of the operator instantiated from `def` has
